@@ -278,3 +278,49 @@ func VerifValidateResultPath(repoDir, rel string) (string, error) { return valid
 func VerifResolveErgoDir(start string) (string, error)            { return resolveErgoDir(start) }
 func VerifGetEventsPath(dir string) string                        { return getEventsPath(dir) }
 func VerifDeriveFileURL(rel, repoDir string) string               { return deriveFileURL(rel, repoDir) }
+
+// ---- rendering -------------------------------------------------------------------------------
+
+func VerifFormatTreeLine(prefix, connector string, showConnector bool, icon, id, title string, annotations []string, blocker string, isEpic bool, st string, ready bool, width int) string {
+	return formatTreeLine(prefix, connector, showConnector, icon, id, title, annotations, blocker, &Task{ID: id, IsEpic: isEpic, State: st}, ready, false, width)
+}
+func VerifTruncateToWidth(s string, w int) string { return truncateToWidth(s, w) }
+func VerifAbbreviate(s string, n int) string      { return abbreviate(s, n) }
+func VerifVisibleLen(s string) int                { return visibleLen(s) }
+
+type VerifRow struct {
+	ID    string `json:"id"`
+	Child bool   `json:"child"`
+	Last  bool   `json:"last"`
+}
+
+// VerifRows flattens buildListRoots for a view into rows.
+func VerifRows(g *Graph, showAll, readyOnly bool) []VerifRow {
+	out := []VerifRow{}
+	for _, root := range buildListRoots(g, showAll, readyOnly, "") {
+		out = append(out, VerifRow{ID: root.task.ID})
+		for i, c := range root.children {
+			out = append(out, VerifRow{ID: c.task.ID, Child: true, Last: i == len(root.children)-1})
+		}
+	}
+	return out
+}
+
+func VerifStats(g *Graph) []int {
+	s := computeStatsForTasks(collectNonEpicTasks(g), g)
+	return []int{s.ready, s.inProgress, s.blocked, s.errors, s.done, s.canceled}
+}
+
+func VerifTopoOrphans(g *Graph) []string {
+	var ts []*Task
+	for _, t := range g.Tasks {
+		if !t.IsEpic && t.EpicID == "" {
+			ts = append(ts, t)
+		}
+	}
+	out := []string{}
+	for _, t := range topoSortTasks(ts, g) {
+		out = append(out, t.ID)
+	}
+	return out
+}
